@@ -120,19 +120,27 @@ static void cmd(const std::vector<std::string>& t, std::string& out) {
     run<GuardDoc>(t, out);
     if (out != "bad-op" && vh::GuardAllocator::live() != before) out += " guardleak";
   } else if (t[1].compare(0, 6, "upool-") == 0) {
-    // upool-<N>: MemoryPoolAllocator over a USER-SUPPLIED buffer of exactly N bytes that ends at a PROT_NONE page (so it starts at an
-    // address = -N mod 8: every misalignment is reached by varying N); a pool that claims more than the buffer faults on the overhang
-    uint64_t n;
-    if (!parse_u64(t[1].substr(6), n) || n < 72 || n > (1u << 20)) {
+    // upool-<N>-<E>: MemoryPoolAllocator over a USER-SUPPLIED buffer of exactly N bytes; 16 canary bytes in front of it, E (0..7)
+    // canary bytes behind it, then a PROT_NONE page: the buffer starts at an address = -(N+E) mod 8 (every start/end misalignment is
+    // reached by varying N and E). A pool that claims more than the buffer either faults or clobbers a canary (reported as CANARY).
+    uint64_t n, e;
+    size_t dash = t[1].find('-', 6);
+    if (dash == std::string::npos || !parse_u64(t[1].substr(6, dash - 6), n) || !parse_u64(t[1].substr(dash + 1), e) || n < 72 ||
+        n > (1u << 20) || e > 7) {
       out = "bad-op";
       return;
     }
-    GuardBlock gb((size_t)n);
-    memset(gb.p, 0x5A, (size_t)n);
+    GuardBlock gb((size_t)n + (size_t)e + 16);
+    memset(gb.p, 0xC7, (size_t)n + (size_t)e + 16);
+    uint8_t* buf = gb.p + 16;
     {
-      sonic_json::MemoryPoolAllocator<> a(gb.p, (size_t)n);
+      sonic_json::MemoryPoolAllocator<> a(buf, (size_t)n);
       run<PoolDoc>(t, out, &a);
     }
+    bool clobbered = false;
+    for (size_t i = 0; i < 16; i++) clobbered |= gb.p[i] != 0xC7;
+    for (size_t i = 0; i < e; i++) clobbered |= buf[n + i] != 0xC7;
+    if (clobbered && out != "bad-op") out += " CANARY";
   } else if (t[1] == "gpool") {
     size_t before = vh::GuardAllocator::live();
     {
